@@ -170,8 +170,9 @@ pub fn install_panic_hook() {
             for l in bt.lines() {
                 let l = l.trim();
                 if let Some(rest) = l.strip_prefix("at ") {
-                    if let Some(i) = rest.find("/repo/crates/") {
-                        let f = &rest[i + 6..];
+                    // wherever the repository lives (/repo, or a scratch worktree in sensitivity runs)
+                    if let Some(i) = rest.find("/crates/jxl-") {
+                        let f = &rest[i + 1..];
                         if !f.contains("jxl-grid/") {
                             // drop the column
                             let f = f.rsplit_once(':').map(|x| x.0).unwrap_or(f);
@@ -827,11 +828,18 @@ fn choice_strategy(max_len: usize) -> impl Strategy<Value = Vec<u8>> {
     use proptest::prelude::*;
     let small = (max_len / 16).max(8);
     let mid = (max_len / 4).max(16);
-    prop_oneof![
+    let body = prop_oneof![
         2 => proptest::collection::vec(any::<u8>(), 0..small),
         3 => proptest::collection::vec(any::<u8>(), 0..mid),
         3 => proptest::collection::vec(any::<u8>(), 0..max_len.max(32)),
-    ]
+    ];
+    // every generated sequence ends with a tail seed (jxlref::src::append_tail_seed): generator decisions
+    // that were added after replays had been recorded draw from it, so that recorded sequences - which
+    // lack the trailer - keep producing exactly the case they produced when they were recorded
+    (body, any::<u64>()).prop_map(|(mut v, seed)| {
+        jxlref::src::append_tail_seed(&mut v, seed);
+        v
+    })
 }
 
 /// Replay one file strictly: exit 1 if the case fails (known or not).
